@@ -1,6 +1,9 @@
 package kafka
 
-import "context"
+import (
+	"context"
+	"time"
+)
 
 // C07 end to end (level S): an Async writer gets two WriteMessages calls from one goroutine for one partition,
 // then Close; produce outcomes are nondeterministic (retries, lost acknowledgements). In the partition's journal
@@ -90,11 +93,18 @@ func VH_C07_BatchQueueFIFO(ops int) {
 // H6 (lock hand-off schedule): two goroutines make their first write to a partition at the same time (every Unlock /
 // RUnlock yields to the other). The partition still has ONE sender: after everything has settled exactly one
 // goroutine waits for batches of that partition, and each goroutine's messages are in the log in its own order.
-func VH_C07_ConcurrentFirstWrite() {
+func VH_C07_ConcurrentFirstWrite(retry int) {
 	vhConcreteClock(true)
 	vhHandoff(true)
 	tr := &vhTransport{partitions: 1, budget: 1, fixed: []int{vhAcked, vhAcked, vhAcked, vhAcked, vhAcked, vhAcked, vhAcked, vhAcked}}
 	w := &Writer{Addr: TCP("vh:9092"), Topic: "t", MaxAttempts: 1, BatchSize: 1, Transport: tr, RequiredAcks: RequireAll, Async: true}
+	if retry == 1 {
+		// the first produce attempt is refused before it is applied (retriable), the writer retries after a back-off
+		// while the other submitter's batches queue up behind it
+		tr.fixed[0] = vhNetError
+		w.MaxAttempts = 3
+		w.WriteBackoffMin, w.WriteBackoffMax = 10*time.Millisecond, 20*time.Millisecond
+	}
 	ctx := context.Background()
 	// the same scenario serves C10: the Writer's fields under two concurrent submitters, Stats and Close
 	vhGuarded(w, "closed", &w.mutex)
@@ -113,6 +123,9 @@ func VH_C07_ConcurrentFirstWrite() {
 	}
 	for i := 0; i < 6; i++ {
 		vhSettle()
+		if retry == 1 {
+			time.Sleep(30 * time.Millisecond)
+		}
 	}
 	vhAssert(done == 2, "both-submitters-return")
 	senders := 0
@@ -128,6 +141,19 @@ func VH_C07_ConcurrentFirstWrite() {
 		for _, id := range j.ids {
 			pos[id] = n
 			n++
+		}
+	}
+	if retry == 1 {
+		// applied requests only
+		pos, n = map[int]int{}, 0
+		for _, j := range tr.journal {
+			if !j.applied {
+				continue
+			}
+			for _, id := range j.ids {
+				pos[id] = n
+				n++
+			}
 		}
 	}
 	vhAssert(n == 4, "every-message-produced-once")
